@@ -388,3 +388,38 @@ def uniform_path_attenuation_sampled():
     prove("even-in-frequency", ok_even)
     prove("equals-exp-of-minus-the-path-integral-of-ds-over-L", ok_value)
     prove("not-increasing-with-frequency", ok_mono)
+
+
+@harness(clause="bounded-polarization-linearity", bounded=25, label="B")
+def propagate_is_linear_in_the_polarization_sampled():
+    """real tracer solutions in Antarctic ice, arbitrary polarization vectors (not necessarily transverse to the ray):
+    propagate(sig, a + b) = propagate(sig, a) + propagate(sig, b) component by component, propagate(sig, c a) = c
+    propagate(sig, a), and the output never carries more energy than the transverse part of the polarization allows"""
+    src = np.array([real("x0", -300, 300), real("y0", -300, 300), real("z0", -1500, -50)])
+    dst = np.array([real("x1", -300, 300), real("y1", -300, 300), real("z1", -300, -20)])
+    assume(float(np.hypot(src[0] - dst[0], src[1] - dst[1])) > 5)
+    tracer = new("pyrex.ray_tracing.SpecializedRayTracer", src, dst)
+    if not tracer.exists:
+        raise AssumptionFailed("no ray solution between the sampled points")
+    n = 64
+    t = np.arange(n) * 1e-9
+    v = absarr("values", n)
+    sig = new("pyrex.signals.Signal", t, v, value_type="field")
+    a = np.array([real("ax", -1, 1), real("ay", -1, 1), real("az", -1, 1)])
+    b = np.array([real("bx", -1, 1), real("by", -1, 1), real("bz", -1, 1)])
+    c = real("factor", -3, 3)
+    for path in tracer.solutions:
+        (sa, pa), _ = path.propagate(sig.copy(), a)
+        (sb, pb), _ = path.propagate(sig.copy(), b)
+        (ss, ps), _ = path.propagate(sig.copy(), a + b)
+        (sc, pc), _ = path.propagate(sig.copy(), c * a)
+        scale = max(float(np.max(np.abs(sa.values))), float(np.max(np.abs(pa.values))), float(np.max(np.abs(sb.values))),
+                    float(np.max(np.abs(pb.values))), 1e-30)
+        prove("additive-in-the-polarization", bool(np.all(np.abs(ss.values - sa.values - sb.values) <= 1e-9 * scale) and
+                                                   np.all(np.abs(ps.values - pa.values - pb.values) <= 1e-9 * scale)))
+        prove("homogeneous-in-the-polarization", bool(np.all(np.abs(sc.values - c * sa.values) <= 1e-9 * abs(c) * scale + 1e-30) and
+                                                      np.all(np.abs(pc.values - c * pa.values) <= 1e-9 * abs(c) * scale + 1e-30)))
+        u = path.emitted_direction
+        transverse2 = float(np.dot(a, a) - np.dot(a, u) ** 2)
+        e_out = float(np.sum(sa.values ** 2) + np.sum(pa.values ** 2))
+        prove("energy-bounded-by-the-transverse-polarization", e_out <= transverse2 * float(np.sum(v ** 2)) * (1 + 1e-9) + 1e-30)
